@@ -1085,3 +1085,81 @@ Section Cyclic.
         * simpl. rewrite forallb_addfk_rest; [lia|]. intros E. rewrite E in Hfe. destruct Hfe.
   Qed.
 End Cyclic.
+
+(** * The three statements *)
+
+(** totality: for every change list (any graph), neither search runs out of fuel *)
+Theorem sort_total cs S : detach_spec cs S -> exists l, SortChanges S = Some l /\ Permutation S l.
+Proof.
+  intros _. destruct (SortChanges_perm S) as [out [H1 H2]]. exists out. split; [exact H1|].
+  eapply perm_trans; [apply Permutation_sym; apply partition_perm|exact H2].
+Qed.
+
+Theorem plan_total cs : exists l, plan cs = POk l.
+Proof.
+  unfold plan. destruct (DetachCycles_total cs) as [S HS]. rewrite HS.
+  destruct (SortChanges_perm S) as [out [H1 _]]. rewrite H1. eexists; reflexivity.
+Qed.
+
+(** once: the plan is a permutation of the detached input; detaching keeps the table-level effects *)
+Lemma detach_spec_effects cs S : detach_spec cs S ->
+  Permutation (flat_map adds cs) (flat_map adds S) /\ Permutation (flat_map drops cs) (flat_map drops S).
+Proof.
+  unfold detach_spec. destruct (sortMap cs) as [| |sorted]; intros H; [destruct H| |].
+  - subst S. rewrite detach_adds, detach_drops. split; apply Permutation_refl.
+  - destruct H as [Hp _]. split; apply Permutation_flat_map; exact Hp.
+Qed.
+
+Theorem plan_once cs l : plan cs = POk l ->
+  exists d, DetachCycles cs = DCOk d /\ Permutation d l /\
+    Permutation (flat_map adds cs) (flat_map adds l) /\ Permutation (flat_map drops cs) (flat_map drops l).
+Proof.
+  unfold plan. destruct (DetachCycles cs) as [|d] eqn:Ed; [discriminate|].
+  destruct (SortChanges_perm d) as [out [H1 H2]]. rewrite H1. intros H. inversion H; subst out.
+  assert (Hp : Permutation d l) by (eapply perm_trans; [apply Permutation_sym; apply partition_perm|exact H2]).
+  exists d. split; [reflexivity|]. split; [exact Hp|].
+  destruct (detach_spec_effects cs d (DetachCycles_spec cs d Ed)) as [Ha Hd]. split.
+  - eapply perm_trans; [exact Ha|apply Permutation_flat_map; exact Hp].
+  - eapply perm_trans; [exact Hd|apply Permutation_flat_map; exact Hp].
+Qed.
+
+Corollary plan_once_wf cs l : WF cs -> plan cs = POk l ->
+  NoDup (flat_map adds l) /\ NoDup (flat_map drops l) /\
+  (forall n, In n (flat_map adds l) <-> In n (flat_map adds cs)) /\
+  (forall n, In n (flat_map drops l) <-> In n (flat_map drops cs)).
+Proof.
+  intros HWF H. destruct (plan_once cs l H) as [d [_ [_ [Ha Hd]]]].
+  split; [apply (Permutation_NoDup Ha); apply NoDup_adds; apply (wf_names cs HWF)|].
+  split; [apply (Permutation_NoDup Hd); apply NoDup_drops; apply (wf_names cs HWF)|].
+  split; intros n; split; intros Hn.
+  - apply (Permutation_in _ (Permutation_sym Ha) Hn).
+  - apply (Permutation_in _ Ha Hn).
+  - apply (Permutation_in _ (Permutation_sym Hd) Hn).
+  - apply (Permutation_in _ Hd Hn).
+Qed.
+
+(** safe: for every list SortChanges may receive from DetachCycles (any tie-break of sort.Slice) *)
+Theorem safe_except cs c S :
+  WF cs -> consistent c cs ->
+  (sortMap cs = SMCycle -> no_repoint_to_added cs) ->
+  detach_spec cs S ->
+  SortChanges S = Some (partition_changes S) /\ exists c', replay (partition_changes S) c = Some c'.
+Proof.
+  intros HWF Hcons Hex. unfold detach_spec. destruct (sortMap cs) as [| |sorted] eqn:Esm; intros HS; [destruct HS| |].
+  - subst S. split.
+    + apply SortChanges_backward. apply (cyc_backward cs HWF).
+    + apply (cyc_replay cs c HWF Hcons (Hex eq_refl)).
+  - destruct HS as [Hp Hs]. split.
+    + apply SortChanges_backward. apply (acyc_backward cs HWF sorted S Esm Hp Hs).
+    + apply (acyc_replay cs HWF c sorted S Hcons Esm Hp Hs).
+Qed.
+
+Theorem plan_safe_except cs c :
+  WF cs -> consistent c cs ->
+  (sortMap cs = SMCycle -> no_repoint_to_added cs) ->
+  exists l c', plan cs = POk l /\ replay l c = Some c'.
+Proof.
+  intros HWF Hcons Hex. destruct (DetachCycles_total cs) as [S HS].
+  destruct (safe_except cs c S HWF Hcons Hex (DetachCycles_spec cs S HS)) as [H1 [c' H2]].
+  exists (partition_changes S), c'. split; [|exact H2]. unfold plan. rewrite HS, H1. reflexivity.
+Qed.
